@@ -291,8 +291,8 @@ impl Resolver<'_> {
                         let field = self.fold_within_namespace(field, &param.name)?;
 
                         // add aliased columns into scope
-                        if let Some(alias) = field.alias.clone() {
-                            let id = field.id.unwrap();
+                        // (fields of `noresolve.*` params are not resolved and have no id)
+                        if let (Some(alias), Some(id)) = (field.alias.clone(), field.id) {
                             self.root_mod.module.insert_frame_col(NS_THIS, alias, id);
                         }
                         fields_new.push(field);
